@@ -70,7 +70,8 @@ def gen_on_grid(rng: random.Random, tier: str):
         pad = rng.choice(["zeros", "border", "const"])
         yield {"src": src, "tgt": tgt, "mode": rng.choice(["linear", "linear", "nearest"]), "pad": pad,
                "c": rng.choice([3.0, -1.5, 7.0]) if pad == "const" else None,
-               "seed": rng.randrange(1 << 30), "api": rng.choice(["image", "batch1", "batchN_shared", "batchN_own", "batchN_own_single", "batchN_single"])}
+               "seed": rng.randrange(1 << 30), "api": rng.choice(["image", "batch1", "batchN_shared", "batchN_own", "batchN_own_single", "batchN_single",
+                                  "module_align", "module_transform"])}
 
 
 def _run_sample(c):
@@ -78,6 +79,15 @@ def _run_sample(c):
     data = image_values(c["seed"], gs.shape)
     padding = c["c"] if c["pad"] == "const" else c["pad"]
     api = c["api"]
+    if api.startswith("module_"):
+        # module entry points (identity transform): AlignImage / TransformImage precompute the target points with
+        # Grid.points(axes) and the target→source matrix for the same axes; every axes choice must give the same image
+        from deepali.modules import AlignImage, TransformImage
+        cls = AlignImage if api == "module_align" else TransformImage
+        axes = [None, Axes.CUBE, Axes.CUBE_CORNERS, Axes.WORLD, Axes.GRID][c["seed"] % 5]
+        m = cls(gt, gs, axes=axes, sampling=c["mode"], padding=padding)
+        out = m(None, torch.stack([image_values(c["seed"] + 1, gs.shape), data]))
+        return out[1, 0], gt, gs, gt, data
     if api == "image":
         out = Image(data, gs).sample(gt, mode=c["mode"], padding=padding)
         return out.tensor()[0], out.grid(), gs, gt, data
@@ -213,7 +223,7 @@ STREAMS = PRIM_STREAMS + [
     Stream("sample.on_grid", gen_on_grid, impl_on_grid, line_on_grid, cmp_on_grid,
            nontrivial=lambda c: gen.grid_nontrivial(c["src"]) and c["src"] != c["tgt"],
            doc="Image/ImageBatch.sample(grid) values for random oriented grid pairs x {linear,nearest} x "
-               "{zeros,border,constant c} x {Image, batch 1, batch N shared/per-image grids} vs the model pipeline"),
+               "{zeros,border,constant c} x {Image, batch 1, batch N shared/per-image grids, AlignImage/TransformImage modules with every axes choice} vs the model pipeline"),
     Stream("itk.spec", gen_spec, impl_spec, line_spec, cmp_spec,
            nontrivial=lambda c: gen.grid_nontrivial(c["src"]),
            doc="the model's ITK specification (continuous index maps) vs SimpleITK and vs deepali's own maps"),
@@ -228,7 +238,8 @@ def gen_itk(rng: random.Random, tier: str):
         pad = rng.choice(["zeros", "border", "const"])
         yield {"src": src, "tgt": tgt, "mode": rng.choice(["linear", "nearest"]), "pad": pad,
                "c": 5.0 if pad == "const" else None, "seed": rng.randrange(1 << 30),
-               "api": rng.choice(["image", "batch1", "batchN_shared", "batchN_own", "batchN_own_single", "batchN_single"])}
+               "api": rng.choice(["image", "batch1", "batchN_shared", "batchN_own", "batchN_own_single", "batchN_single",
+                                  "module_align", "module_transform"])}
 
 
 def check_itk(c):
@@ -318,7 +329,7 @@ def check_coords_vs_grid(c):
 
 ORACLES = [
     Oracle("itk", gen_itk, check_itk, nontrivial=lambda c: gen.grid_nontrivial(c["src"]),
-           doc="deepali sample vs SimpleITK.Resample(identity) at target samples inside the source field of view"),
+           doc="deepali sample (Image, ImageBatch, AlignImage/TransformImage modules) vs SimpleITK.Resample(identity) at target samples inside the source field of view"),
     Oracle("self", gen_self, check_self, doc="sampling on own / equal grid / own coords returns the image"),
     Oracle("coords_vs_grid", gen_coords_vs_grid, check_coords_vs_grid,
            doc="sampling at explicit normalised coordinates == sampling on the grid they came from"),
